@@ -818,6 +818,9 @@ func (s *Stream) Handshake(addr string, extraHeaders ...Header) (err error) {
 
 	if err != nil {
 		s.state = StateTerminated
+		// The stream will never use the connection it dialled: do not leave it open. (Not done where the
+		// upgrade fails, which runs inside the connection's RawConn.Control callback: Close would wait for it.)
+		_ = s.CloseNextLayer()
 	} else {
 		s.state = StateActive
 		err = s.init(stream)
@@ -848,6 +851,7 @@ func (s *Stream) AsyncHandshake(addr string, callback func(error), extraHeaders 
 			_ = s.ioc.Post(func() {
 				if err != nil {
 					s.state = StateTerminated
+					_ = s.CloseNextLayer()
 				} else {
 					s.state = StateActive
 					err = s.init(stream)
